@@ -2,10 +2,12 @@ package props
 
 import (
 	"fmt"
+	"regexp"
 	"sort"
 	"strconv"
 	"strings"
 
+	bo "github.com/benoitkugler/webrender/html/boxes"
 	"pgregory.net/rapid"
 
 	"verif/harness/internal/wr"
@@ -286,6 +288,40 @@ func c16Paint(n *c16Node, kids []*c16Node, real bool, out *[]c16Event) {
 	}
 }
 
+var c16BgRe = regexp.MustCompile(`background:rgb\((\d+),10,0\)`)
+
+// c16LaidOutInSourceOrder tells whether the boxes of the scene appear in the laid-out tree (first
+// fragment of each, tree order) in the order of the source.
+func c16LaidOutInSourceOrder(r *wr.Rendered) bool {
+	last, ok := 0, true
+	seen := map[int]bool{}
+	for _, p := range r.Pages {
+		wr.WalkBoxes(p, func(b bo.Box) bool {
+			bf := b.Box()
+			if bf.Element == nil || bf.PseudoType != "" {
+				return true
+			}
+			for _, a := range bf.Element.Attr {
+				if a.Key != "style" {
+					continue
+				}
+				if m := c16BgRe.FindStringSubmatch(a.Val); m != nil {
+					id, _ := strconv.Atoi(m[1])
+					if !seen[id] {
+						seen[id] = true
+						if id < last {
+							ok = false
+						}
+						last = id
+					}
+				}
+			}
+			return true
+		})
+	}
+	return ok
+}
+
 // c16Observed decodes the paint events of the trace through the colours.
 func c16Observed(r *wr.Rendered) []c16Event {
 	obs := c16ObservedFull(r)
@@ -486,10 +522,14 @@ func c16Check(ci interface{}) Verdict {
 			}
 			return false
 		}
-		for _, n := range nodes {
-			if n.b.Kind == "float" && holds(n) {
-				cls += ":with-float-holding-child-contexts"
-				break
+		// (C16-F02 is about floats that layout moved behind later content: it can only apply when the
+		// laid-out tree no longer has the boxes in source order)
+		if !c16LaidOutInSourceOrder(r) {
+			for _, n := range nodes {
+				if n.b.Kind == "float" && holds(n) {
+					cls += ":with-float-holding-child-contexts"
+					break
+				}
 			}
 		}
 		v := Viol("paint-"+cls, "paint sequence (box.layer) differs from CSS 2.1 Appendix E at event %d:\n observed: %s\n expected: %s\n%s", i, c16Str(got), c16Str(wantM), html)
